@@ -130,7 +130,10 @@ CHECKS = {
              "wrong-kind references are errors, names of event destinations and filter control blocks "
              "resolve to the block of that name and kind. The biconditional, conf=inputs, resolved "
              "names and frozenness are ALSO evaluated by the monitor on the data observed on the real "
-             "circuit after an explicit finalize() and after a normal start.",
+             "circuit after an explicit finalize() and after a normal start. Input shapes: model "
+             "Signature.v of check_signature() with theorems C15_signature_* (a start succeeds iff the names "
+             "agree and every item has the declared shape; missing / unexpected names, a group for a single "
+             "input, a single input for a group, wrong count, range bounds), evaluated on 46 real starts.",
         technique="Coq proof (list induction, NoDup preservation) + differential correspondence and "
                   "monitor evaluated by vm_compute",
         design_ref="DESIGN.md section 6/C15"),
